@@ -21,6 +21,22 @@ TARGETS = [
          fallback={'ymins': 'def ymins (rows ns w : Nat) : List Nat := Aegean.Model.C07.yminsHand rows ns w',
                    'ymaxs': 'def ymaxs (rows ns w : Nat) : List Nat := Aegean.Model.C07.ymaxsHand rows ns w'},
          all_params=['rows', 'ns', 'w']),
+    # the rows a stripe loads: its own rows plus half a box HEIGHT either side, clipped to the image
+    dict(file='AegeanTools/BANE.py', func='sigma_filter', mode='int',
+         params={'lo': 'N', 'hi': 'N', 'bh': 'N', 'bw': 'N', 'nrows': 'N'},
+         subst={'ymin': 'lo', 'ymax': 'hi', 'box_size[0]': 'bh', 'box_size[1]': 'bw', 'shape[0]': 'nrows'},
+         outputs=[('data_row_min', 'dataRowMin'), ('data_row_max', 'dataRowMax')],
+         fallback={'dataRowMin': 'def dataRowMin (lo hi bh bw nrows : Nat) : Int := Aegean.Model.C07.dataRowMinHand lo hi bh bw nrows',
+                   'dataRowMax': 'def dataRowMax (lo hi bh bw nrows : Nat) : Nat := Aegean.Model.C07.dataRowMaxHand lo hi bh bw nrows'},
+         all_params=['lo', 'hi', 'bh', 'bw', 'nrows']),
+    # the row range of the box centred on local row r of the loaded data (dlen rows)
+    dict(file='AegeanTools/BANE.py', func='sigma_filter.box', mode='int',
+         params={'r': 'N', 'bh': 'N', 'bw': 'N', 'dlen': 'N'},
+         subst={'box_size[0]': 'bh', 'box_size[1]': 'bw', 'data.shape[0]': 'dlen'},
+         outputs=[('r_min', 'boxRMin'), ('r_max', 'boxRMax')],
+         fallback={'boxRMin': 'def boxRMin (r bh bw dlen : Nat) : Int := Aegean.Model.C07.boxRMinHand r bh bw dlen',
+                   'boxRMax': 'def boxRMax (r bh bw dlen : Nat) : Nat := Aegean.Model.C07.boxRMaxHand r bh bw dlen'},
+         all_params=['r', 'bh', 'bw', 'dlen']),
 ]
 
 
